@@ -18,6 +18,9 @@ CORE = [".", "./index", "./search", "./query", "./web", "./gitindex", "./cmd/zoe
         "./cmd/zoekt-merge-index", "./cmd/zoekt-local-sync", "./cmd/zoekt-index", "./internal/archive", "./grpc/chunk", "./ignore", "./internal/hybridre2", "./internal/syntaxutil"]
 
 
+STEPS = set(os.environ.get("SEEDEVAL_STEPS", "tests,checks").split(","))
+
+
 def sh(cmd, cwd, timeout=3000):
     p = subprocess.run(cmd, cwd=cwd, env=ENV, shell=isinstance(cmd, str), stdout=subprocess.PIPE, stderr=subprocess.STDOUT, text=True, timeout=timeout)
     return p.returncode, p.stdout
@@ -79,17 +82,19 @@ def main():
             parts = line.split()
             if parts and any(i in cimp for i in parts[1:]):
                 pkgs.add("." + parts[0][len(mod):] if parts[0] != mod else ".")
-        cmd = "go test -vet=off -count=1 " + " ".join(sorted(pkgs))
-        rc, out = sh(cmd, patched, 3000)
+        cmd = "go test -vet=off -count=1 -timeout 90m " + " ".join(sorted(pkgs))
+        rc, out = (0, "") if "tests" not in STEPS else sh(cmd, patched, 6000)
         if rc != 0:  # one retry: some packages have timing-sensitive tests on a loaded machine
-            rc, out = sh(cmd, patched, 3000)
-        res["existing_tests_pass"] = rc == 0
-        res["ran"].append(cmd + " -> %d" % rc)
+            rc, out = sh(cmd, patched, 6000)
+        if "tests" in STEPS:
+            res["existing_tests_pass"] = rc == 0
+            res["ran"].append(cmd + " -> %d" % rc)
         if rc != 0:
             res["existing_tests_tail"] = out[-1200:]
         # our checks
-        res["checks"] = {}
-        for cid in checks:
+        if "checks" in STEPS:
+            res["checks"] = {}
+        for cid in (checks if "checks" in STEPS else []):
             t0 = time.time()
             p = subprocess.run([sys.executable, os.path.join(VERIF, "check.py"), cid, "quick"], cwd=VERIF, env=dict(os.environ, VERIF_REPO=patched),
                                stdout=subprocess.PIPE, stderr=subprocess.STDOUT, text=True, timeout=3000)
@@ -98,7 +103,8 @@ def main():
             res["checks"][cid] = {"exit": p.returncode, "violation_lines": len(viol), "first_detail": first, "wall_s": round(time.time() - t0, 1),
                                   "cmd": "VERIF_REPO=<patched worktree> python3 check.py %s quick" % cid}
             res["ran"].append("VERIF_REPO=<patched> python3 check.py %s quick -> exit %d, %d VIOLATION lines" % (cid, p.returncode, len(viol)))
-        res["detected"] = any(v["exit"] == 1 and v["violation_lines"] > 0 for v in res["checks"].values())
+        if "checks" in STEPS:
+            res["detected"] = any(v["exit"] == 1 and v["violation_lines"] > 0 for v in res["checks"].values())
     finally:
         for d in (clean, patched):
             subprocess.call(["git", "-C", "/repo", "worktree", "remove", "--force", d], stdout=subprocess.DEVNULL, stderr=subprocess.DEVNULL)
@@ -116,7 +122,18 @@ def finish(sd, pid, res):
         for f in fs:
             if f.endswith(".go"):
                 shutil.copy(os.path.join(dp, f), os.path.join(out, f + ".txt"))  # .txt: not compiled by anything
-    json.dump(res, open(os.path.join(out, "meta.json"), "w"), indent=1)
+    mp = os.path.join(out, "meta.json")
+    if STEPS != {"tests", "checks"} and os.path.exists(mp):  # partial re-run: keep what the other steps recorded
+        old = json.load(open(mp))
+        ran = old.get("ran", []) + [r for r in res.get("ran", []) if r not in old.get("ran", [])]
+        if "tests" in STEPS:
+            old.pop("existing_tests_tail", None)
+        if "checks" not in STEPS:
+            res.pop("checks", None)
+        old.update(res)
+        old["ran"] = ran
+        res = old
+    json.dump(res, open(mp, "w"), indent=1)
     print(pid, "valid_seed=%s detected=%s" % (res.get("demo_passes_on_clean") and res.get("demo_fails_on_patched") and res.get("existing_tests_pass"), res.get("detected")), res.get("checks"))
     return 0
 
